@@ -5,6 +5,7 @@ open Regex
 open Route
 open Tree
 open Router
+open UrlPath
 
 (* regex AST *)
 let rec re_of (x : Sx.t) : re =
@@ -64,6 +65,7 @@ type hist = {
   mutable attempt : int;
   mutable rid_of_attempt : (int * int) list;         (* attempt index -> model route id *)
   mutable accepted : (int * int * Datatypes.nat list * route) list;  (* attempt, rid, methods, route *)
+  mutable named : (string * route) list;
 }
 
 let attempt_of h rid = fst (List.find (fun (_, r) -> r = rid) h.rid_of_attempt)
@@ -123,7 +125,7 @@ let norm ps = List.sort compare (List.map (fun (k, v) -> (ocaml_string_of_str k,
 
 let eval (prop : string) (input : Sx.t) (obs : Sx.t) : Sx.t list * bool * bool * string =
   let compile = compile_of input in
-  let h = { st = rinit; attempt = 0; rid_of_attempt = []; accepted = [] } in
+  let h = { st = rinit; attempt = 0; rid_of_attempt = []; accepted = []; named = [] } in
   let outs_obs = Sx.args (Sx.field "outs" obs) in
   let spec = ref true and nontrivial = ref false in
   let nreq = ref 0 and nfound = ref 0 and nmulti = ref 0 and nrej = ref 0 in
@@ -154,8 +156,40 @@ let eval (prop : string) (input : Sx.t) (obs : Sx.t) : Sx.t list * bool * bool *
              h.st <- set_headers h.st (nat_of_int rid) hc
          | None -> ());
         Sx.L [Sx.A "ok"]
-    | "req", [m; path; hdrs] ->
+    | "name", [at; nm] ->
+        (match List.assoc_opt (Sx.int_of at) h.rid_of_attempt with
+         | None -> Sx.L [Sx.A "skip"]
+         | Some rid ->
+             let nm = ocaml_string_of_str (str nm) in
+             if nm = "" || List.mem_assoc nm h.named then Sx.L [Sx.A "panic"]
+             else begin
+               let (_, _, _, r) = List.find (fun (_, x, _, _) -> x = rid) h.accepted in
+               h.named <- (nm, r) :: h.named; Sx.L [Sx.A "ok"]
+             end)
+    | "url", [nm; pairs] ->
+        (match List.assoc_opt (ocaml_string_of_str (str nm)) h.named with
+         | None -> Sx.L [Sx.A "panic"]
+         | Some r ->
+             let pairs = List.map str (Sx.args pairs) in
+             let res = router_url_path r pairs in
+             (* C12 spec: all supplied binds substituted at once, others left visible *)
+             if prop = "C12" then begin
+               let vals = pairs_to_map pairs [] in
+               let wo = (match lookup_val vals s_with_optional with Some v -> v = s_true | None -> false) in
+               let vals' = if wo then List.filter (fun (k, _) -> k <> s_with_optional) vals else vals in
+               let sk = route_skel' r wo in
+               if List.for_all (fun (k, _) -> brace_free k) vals' && skel_ok sk then begin
+                 let expect = fill vals' sk in
+                 (match Sx.tag o, Sx.args o with
+                  | "s", [got] -> if str got <> expect then fail (Printf.sprintf "URLPath %s: got %s, simultaneous substitution gives %s" (Sx.show op) (Sx.show o) (hex_of_str expect))
+                  | _ -> fail ("URLPath " ^ Sx.show op ^ " -> " ^ Sx.show o));
+                 if List.exists (fun (_, v) -> List.exists (fun c -> int_of_n c = 123 || int_of_n c = 125) v) vals' then nontrivial := true
+               end
+             end;
+             Sx.L [Sx.A "s"; sx_str res])
+    | "req", (m :: path :: hdrs :: extra) ->
         incr nreq;
+        let (o, rebuilt) = (match Sx.tag o, Sx.args o with "rebuilt", [o'; a; b] -> (o', Some (a, b)) | _ -> (o, None)) in
         let mname = ocaml_string_of_str (str m) in
         let mi = method_index mname in
         let path = str path and hdrs = hdrs_of hdrs in
@@ -210,7 +244,25 @@ let eval (prop : string) (input : Sx.t) (obs : Sx.t) : Sx.t list * bool * bool *
           (match mi with Some i -> if table_lookup h.st (nat_of_int i) path <> None then nontrivial := true | None -> ())
         end;
         if prop = "C07" && (mi = None || List.exists (fun c -> int_of_n c >= 128 || int_of_n c < 32) path) then nontrivial := true;
-        sx
+        (* C12: building the URL of the named route from the delivered parameters inverts matching *)
+        (match extra, res with
+         | [rb], Found (frid, ps) ->
+             let name = ocaml_string_of_str (str (List.hd (Sx.args rb))) in
+             let (_, _, _, froute) = List.find (fun (_, x, _, _) -> x = int_of_nat frid) h.accepted in
+             let build extra_pairs = (match List.assoc_opt name h.named with
+               | Some r -> sx_str (router_url_path r (List.concat_map (fun (k, v) -> [k; v]) ps @ extra_pairs))
+               | None -> Sx.A "panic") in
+             let a = build [] and b = build [s_with_optional; s_true] in
+             (match rebuilt with
+              | Some (oa, ob) ->
+                  if not (List.exists (fun c -> int_of_n c = 37) path) && List.assoc_opt name h.named = Some froute then begin
+                    let want = sx_str (c_slash :: join_slash segs) in
+                    if oa <> want && ob <> want then fail (Printf.sprintf "request %s: URLPath of the delivered params gives %s / %s, not the request path" (Sx.show op) (Sx.show oa) (Sx.show ob));
+                    nontrivial := true
+                  end
+              | None -> ());
+             Sx.L [Sx.A "rebuilt"; sx; a; b]
+         | _ -> sx)
     | _ -> failwith ("op: " ^ Sx.show op)) (Sx.args (Sx.field "ops" input)) in
   let cls = Printf.sprintf "routes=%s,reqs=%s" (if List.length h.accepted >= 4 then ">=4" else "<4") (if !nmulti > 0 then "multi-candidate" else "single") in
   ([Sx.L (Sx.A "outs" :: outs_model)], !spec, !nontrivial, cls)
